@@ -172,7 +172,7 @@ func withHolds(r *vc.Rand, sc string, up map[byte]byte, rel map[byte]byte) strin
 // CloseWrite against iocopy.NewReadWriteCloser(conn, conn, closeFn) — is the most frequent one,
 // every other combination of the four kinds follows in rotation.
 var kindPairs = func() [][2]string {
-	ks := []string{"cw", "same", "split", "none"}
+	ks := []string{"cw", "same", "split", "none", "prod", "wcw"}
 	var out [][2]string
 	for _, a := range ks {
 		for _, b := range ks {
@@ -228,8 +228,8 @@ func genTCP(rn *runner, r *vc.Rand, thorough bool) {
 	}
 	// (1c) every pair of endpoint kinds x every interleaving, for the half-close orders that matter: one side
 	// reaches EOF first while the other still has data to send (then the reverse), with and without slow Writes
-	for _, ka := range []string{"cw", "same", "split", "none"} {
-		for _, kb := range []string{"cw", "same", "split", "none"} {
+	for _, ka := range []string{"cw", "same", "split", "none", "prod", "wcw"} {
+		for _, kb := range []string{"cw", "same", "split", "none", "prod", "wcw"} {
 			a := epStr("eof", false, -1, false, []string{"6162"})
 			b := epStr("eof", false, -1, false, []string{"7172", "7374"})
 			for _, sc := range interleavings('a', 'b', 2, 3) {
@@ -240,11 +240,17 @@ func genTCP(rn *runner, r *vc.Rand, thorough bool) {
 				rn.add(tcpLineK(ka, a, kb, b, sc), "tcp:kinds-all")
 			}
 			rn.add(tcpLineK(ka, epStr("err", true, -1, false, []string{"6162", "63"}), kb, epStr("eof", false, -1, false, []string{"7172", "73", "74"}), "aabbbb"), "tcp:kinds-all")
+			// the same relay run by a real tunnel.Tunnel (Start -> runDataCopy -> Close): close reason, statistics, closed once
+			for _, sc := range []string{"aabbb", "babab", "bbbaa"} {
+				rn.add("tcpt"+strings.TrimPrefix(tcpLineK(ka, a, kb, b, sc), "tcp"), "tcpt:tunnel-lifecycle")
+			}
+			rn.add("tcpt"+strings.TrimPrefix(tcpLineK(ka, epStr("err", false, -1, false, []string{"6162"}), kb, epStr("eof", false, 0, false, []string{"7172"}), "abab"), "tcp"), "tcpt:tunnel-lifecycle")
+			rn.add("tcpt"+strings.TrimPrefix(tcpLineK(ka, epStr("eof", true, 1, false, []string{"6162", "63"}), kb, epStr("err", true, -1, false, []string{"7172"}), "bAaxb"), "tcp"), "tcpt:tunnel-lifecycle")
 		}
 	}
 	// (1d) one side FAILS (read error, alone or fused with data; refused Write) while the other side is PASSIVE:
 	// it ends only after the relay has signalled the end of the other direction to it. Every interleaving.
-	for _, kOther := range []string{"cw", "same", "split", "none"} {
+	for _, kOther := range []string{"cw", "same", "split", "none", "prod", "wcw"} {
 		fails := []string{
 			epStr("err", false, -1, false, []string{}),
 			epStr("err", false, -1, false, []string{"6162"}),
@@ -538,6 +544,50 @@ func genUDP(rn *runner, r *vc.Rand, thorough bool) {
 		rn.add(udpLine("hold", nil, "eof", false, huge, uncut, "-", nil, ""), "udp:window")
 		rn.add(udpLine("hold", nil, "eof", false, huge, 600000, "-", []int{530000}, ""), "udp:window")
 	}
+	// batch size of the UDP-side flush (32 datagrams): 31 / 32 / 33 / 64 / 70 records in one read, and split over reads
+	for _, n := range []int{31, 32, 33, 64, 70} {
+		var many []string
+		for i := 0; i < n; i++ {
+			many = append(many, fmt.Sprintf("%02x%02x", 0x40+i%50, i))
+		}
+		rn.add(udpLine("hold", nil, "eof", false, many, uncut, "-", nil, ""), "udp:flush-batch-32")
+		rn.add(udpLine("hold", nil, "err", false, many, 4*n-1, "-", []int{4*30 + 1, 9}, ""), "udp:flush-batch-32")
+	}
+	// the UDP socket refuses a Write (at every index, also inside / at the edge of a 32-datagram flush batch): the datagrams
+	// before it have arrived, the error is reported, the relay returns; with an illegal length behind it the error is ignored
+	for _, tds := range [][]string{{"41", "4243", "44"}, {"41", "42", "43", "44", "45"}} {
+		for wf := 0; wf <= len(tds); wf++ {
+			for _, sizes := range [][]int{nil, {4}, ones(encLen(tds))} {
+				line := udpLine("hold", nil, []string{"eof", "err"}[wf%2], false, tds, uncut, "-", sizes, "")
+				rn.add(strings.Replace(line, "udp U hold ", fmt.Sprintf("udp U hold wf%d ", wf), 1), "udp:socket-write-refused")
+			}
+			line := udpLine("eof", []string{"7172"}, "eof", false, tds, uncut, "0000", []int{5}, "tut")
+			rn.add(strings.Replace(line, "udp U eof ", fmt.Sprintf("udp U eof wf%d ", wf), 1), "udp:socket-write-refused")
+		}
+	}
+	{
+		var many []string
+		for i := 0; i < 40; i++ {
+			many = append(many, fmt.Sprintf("%02x", 0x30+i))
+		}
+		for _, wf := range []int{0, 30, 31, 32, 33, 39} {
+			line := udpLine("hold", nil, "eof", false, many, uncut, "-", nil, "")
+			rn.add(strings.Replace(line, "udp U hold ", fmt.Sprintf("udp U hold wf%d ", wf), 1), "udp:socket-write-refused")
+		}
+	}
+	// the local side is a REAL connected UDP socket: iocopy.UDP sends through its sendmmsg batch writer (32 per call)
+	for _, n := range []int{1, 5, 31, 32, 33, 64, 70} {
+		var many []string
+		for i := 0; i < n; i++ {
+			many = append(many, fmt.Sprintf("%02x%02x%02x", 0x40+i%50, i, n))
+		}
+		for _, sizes := range [][]int{nil, {7}, {3*n + 1, 2}} {
+			line := udpLine("hold", nil, []string{"eof", "err"}[n%2], false, many, uncut, "-", sizes, "")
+			rn.add("udpr"+strings.TrimPrefix(line, "udp"), "udpr:real-udp-socket")
+		}
+		line := udpLine("hold", nil, "eof", false, append(append([]string{}, many...), "z1400x3", "z9000x5"), 5*n+2+1400+700, "-", []int{11}, "")
+		rn.add("udpr"+strings.TrimPrefix(line, "udp"), "udpr:real-udp-socket")
+	}
 	// (5) schedules: every interleaving of the two goroutines for short scripts, every combination of endings
 	for _, utail := range []string{"eof", "err", "hold"} {
 		for _, ttail := range []string{"eof", "err", "hold"} {
@@ -621,6 +671,11 @@ func genUDP(rn *runner, r *vc.Rand, thorough bool) {
 					rn.add("udpv"+strings.TrimPrefix(line, "udp"), "udpv:async-socket")
 				}
 			}
+		}
+		// local datagrams arrive through the adapter's receive path (processPacket, pooled buffers, UDPVirtualConn.Read)
+		for _, uevs := range [][]string{{"6162"}, {"61", "-", "626364", "65"}, {"z300x3", "6162", "z255x8"}} {
+			line := udpLine("hold", uevs, "eof", false, tds, uncut, "-", []int{total / 2}, "utuutsu")
+			rn.add("udpv"+strings.TrimPrefix(line, "udp"), "udpv:adapter-receive")
 		}
 		for cut := 0; cut <= total && total <= 40; cut++ {
 			line := udpLine("hold", nil, "eof", false, tds, cut, "-", []int{3, 2, 4}, "ttstts")
